@@ -670,3 +670,48 @@ def check_init_writes_own_keyword_only(ctx, rule, clause=''):
                     bad = True
                     ctx.violation(rule, fi, st, 'an entry is added to the constructor\'s keyword dict under %s, which is not this field\'s own name: the constructor and the fields initialised afterwards take it for a keyword the user passed (a described field is forced to it and no longer follows what it tracks)' % canon(key)[:40], x.lineno, clause=clause, witness=True)
     ctx.unit('keyword_dict_writes_in_init', n)
+
+
+
+def check_no_class_level_accumulator(ctx, rule, cls_names, clause=''):
+    """Round 8.  a list / dict / set created in the class body and filled by the methods of the
+    class is one object for every instance and every packet class ever declared in the process:
+    what the compilation of one declaration leaves in it (a declaration rejected half way does not
+    clean up) is found by the next one"""
+    repo = ctx.repo
+    n = 0
+    for cname in cls_names:
+        ci = repo.classes.get(cname)
+        if ci is None:
+            continue
+        for st in ci.node.body:
+            if isinstance(st, ast.Assign) and len(st.targets) == 1 and isinstance(st.targets[0], ast.Name) and (
+                    isinstance(st.value, (ast.List, ast.Dict, ast.Set)) or (isinstance(st.value, ast.Call) and isinstance(st.value.func, ast.Name) and st.value.func.id in ('list', 'dict', 'set', 'deque', 'defaultdict'))):
+                attr = st.targets[0].id
+                if attr.startswith('__'):
+                    continue
+                muts = []
+                for fi in repo.functions.values():
+                    aliases = {attr_holder for attr_holder in ()}
+                    names = set()
+                    for x in ast.walk(fi.node):
+                        if isinstance(x, ast.Assign) and len(x.targets) == 1 and isinstance(x.targets[0], ast.Name) and isinstance(x.value, ast.Attribute) and x.value.attr == attr \
+                                and canon(x.value.value) in ('self', 'cls', cname, 'type(self)', 'self.__class__'):
+                            names.add(x.targets[0].id)
+                    for x in ast.walk(fi.node):
+                        if isinstance(x, ast.Call) and isinstance(x.func, ast.Attribute) and x.func.attr in ('append', 'extend', 'insert', 'add', 'update', 'setdefault', 'pop', 'clear', 'remove'):
+                            r = x.func.value
+                            if (isinstance(r, ast.Attribute) and r.attr == attr and canon(r.value) in ('self', 'cls', cname, 'type(self)', 'self.__class__')) or (isinstance(r, ast.Name) and r.id in names):
+                                muts.append((fi, x))
+                        if isinstance(x, ast.Subscript) and isinstance(x.ctx, (ast.Store, ast.Del)):
+                            r = x.value
+                            if (isinstance(r, ast.Attribute) and r.attr == attr and canon(r.value) in ('self', 'cls', cname, 'type(self)', 'self.__class__')) or (isinstance(r, ast.Name) and r.id in names):
+                                muts.append((fi, x))
+                # an attribute rebound per instance in __init__ is the instance's own
+                own = any(isinstance(x, ast.Attribute) and x.attr == attr and isinstance(x.ctx, ast.Store) and canon(x.value) == 'self' for m_ in ci.methods.values() for x in ast.walk(m_.node))
+                if muts and not own:
+                    n += 1
+                    fi, x = muts[0]
+                    ctx.violation(rule, fi, '%s.%s = %s; %s' % (cname, attr, canon(st.value)[:20], stmt_text(x)[:70]), 'a container created in the class body is filled by the methods of the class: it is shared by every instance and every packet class declared in the process, so what one declaration leaves in it (for instance when it is rejected half way) is seen by the next', getattr(x, 'lineno', st.lineno), clause=clause, witness=True)
+    if not n:
+        ctx.holds(rule, ('bisturi/field.py', ', '.join(cls_names)), 'no class-level container is filled by the methods of %s' % ', '.join(cls_names), 'nothing is carried from one declaration to the next', 0, clause=clause)
